@@ -50,6 +50,11 @@ Oracles (name -> meaning)
                                  bound there
   stream-misdelivered            data on a connection arrives at another
                                  socket, altered or out of order
+  address-not-freed / name-not-freed
+                                 right after the close() of the last open
+                                 socket of a bind a raw bind(that address) /
+                                 bind(that name) fails (probe sockets, closed
+                                 again at once)
   datagram-misdelivered          recvfrom() returns something that was not
                                  sent to this socket's address with this
                                  payload from this source (loss is allowed)
@@ -98,6 +103,11 @@ ASSUMPTIONS = [
     "the property speaks about connect by name",
     "raw access point sockets are only bound and closed (address table), "
     "never used for traffic; the link is lossless and pumped by the harness",
+    "machine leg: the probes after a close() that empties a bind (a raw "
+    "access point bound at the freed address, a socket bound under the freed "
+    "name, each closed again at once) use the public API, succeed on a "
+    "correct table and leave it as it was; they are not part of the model's "
+    "history (no re-bind is counted for them)",
     "race leg: operations of two threads on one controller are expected to "
     "take effect one at a time (the outcomes equal those of some sequential "
     "order); the two threads never use the same socket; schedules are "
@@ -250,6 +260,7 @@ class Sock(object):
         self.ldl_peer = None
         self.dead = False           # frame-rejected / disconnected: lenient
         self.ends = None            # accepted: (own address, peer address)
+        self.ended = False          # recv() has returned None (end of stream)
 
     def __repr__(self):
         return "<%s%d %s>" % (self.side, self.sid, self.kind)
@@ -631,6 +642,59 @@ def op_recv(w, s):
         c.broken = True
 
 
+def op_recvall(w, s):
+    """the way a server thread reads: blocking recv() until the end of the
+    stream (None when the peer has disconnected) in a helper thread.  The
+    socket has then shut itself down but is still the application's to
+    close()."""
+    c = s.conn
+    if c is None or s.dead or s.busy is not None or not s.open:
+        return
+    got = []
+
+    def body():
+        while True:
+            m = s.sock.recv()
+            if m is None:
+                return len(got)
+            got.append(bytes(m))
+    box = w.pair.call(body, "recvall-%s%d" % (s.side, s.sid))
+    s.busy = box
+    w.pending.append(("recvall", s, box, got))
+    w.count("recv-until-end")
+    settle(w)
+
+
+def progress_recvall(w, s, box, got):
+    """messages a pending / finished recv loop has taken so far"""
+    c = s.conn
+    want = c.sent[other(s.side)]
+    while got:
+        m = got.pop(0)
+        k = c.got[s.side]
+        if k >= len(want) or m != want[k]:
+            if s.dead or c.broken and k >= len(want):
+                c.broken = True
+                continue
+            fail(w, "stream-misdelivered", "%s (connection %d) received "
+                 "%r, expected message %d of its peer: %r"
+                 % (s, c.cid, m[:24], k, want[k] if k < len(want) else None))
+        c.got[s.side] += 1
+        w.count("stream-received")
+    if box.done:
+        s.busy = None
+        c.broken = True
+        if box.exc is not None:
+            if not isinstance(box.exc, nfc.llcp.Error):
+                raise unexpected(box.exc, oracle="recv-raised")
+            w.count("recv-error")
+        else:
+            # recv() returned None: the connection is over, the socket has
+            # shut itself down and still occupies its address until close()
+            s.ended = True
+            w.count("recv-end-of-stream")
+
+
 def op_sendto(w, s, dkind, val, size):
     if s.dead:
         return
@@ -765,6 +829,8 @@ def settle(w):
     connect sends the marker, which exchanges and settles again)"""
     for item in list(w.pending):
         kind, s, box, info = item
+        if kind == "recvall" and item in w.pending:
+            progress_recvall(w, s, box, info)
         if not box.done or item not in w.pending:
             continue
         w.pending.remove(item)
@@ -778,9 +844,49 @@ def settle(w):
                 raise unexpected(box.exc, oracle=kind + "-raised")
             if kind == "close" and s.group is not None:
                 # the address is released when close() has returned
-                w.table[s.side].remove(s.group, s.sid, s.owner)
+                g = s.group
+                if s.ended or s.dead:
+                    w.count("closed-after-end-of-life")
+                w.table[s.side].remove(g, s.sid, s.owner)
+                if not g.members:
+                    probe_freed(w, s, g)
     for name, exc in w.pair.failures():
         raise unexpected(exc, oracle="thread-died")
+
+
+def probe_freed(w, s, g):
+    """'closing the last socket frees the address' (and the name bound to
+    it), asked at the API right after the close() that emptied the group: a
+    raw access point can be bound at exactly that address, a socket can be
+    bound under that name; both probes are closed again at once"""
+    tab = w.table[s.side]
+    if g.addr in tab.by_addr:
+        return                      # the model has it in use (not this group)
+    raw = w.pair.socket(s.side, RAW_ACCESS_POINT)
+    try:
+        raw.bind(g.addr)
+    except nfc.llcp.Error as e:
+        fail(w, "address-not-freed", "%s was the last open socket of the "
+             "bind at address %d (name %r); after its close() a raw "
+             "bind(%d) fails with %s" % (
+                 s, g.addr, g.name, g.addr,
+                 E.errorcode.get(e.errno, e.errno)))
+    if raw.getsockname() != g.addr:
+        fail(w, "bind-wrong-address", "raw bind(%d) -> %r"
+             % (g.addr, raw.getsockname()))
+    raw.close()
+    w.count("probe:address-free-after-last-close")
+    if g.name is not None and g.name not in tab.names and \
+            g.name not in tab.limbo and g.name != "urn:nfc:sn:sdp":
+        named = w.pair.socket(s.side, DATA_LINK_CONNECTION)
+        try:
+            named.bind(g.name)
+        except nfc.llcp.Error as e:
+            fail(w, "name-not-freed", "%s was the last open socket of the "
+                 "bind under %r; after its close() bind(%r) fails with %s"
+                 % (s, g.name, g.name, E.errorcode.get(e.errno, e.errno)))
+        named.close()
+        w.count("probe:name-free-after-last-close")
 
 
 def xfer(w, side):
@@ -862,6 +968,16 @@ def run_ops(w, ops):
             s = pick(w, side, op[2], lambda s: s.conn is not None)
             if s is not None:
                 op_recv(w, s)
+        elif name == "recvall":
+            s = pick(w, side, op[2], lambda s: s.conn is not None)
+            if s is not None:
+                op_recvall(w, s)
+        elif name == "closerole":
+            role = op[3]
+            s = pick(w, side, op[2], lambda s: (
+                s.conn is not None if role == "conn" else s.role == role))
+            if s is not None:
+                op_close(w, s)
         elif name == "sendto":
             s = pick(w, side, op[2], lambda s: s.kind == "ldl")
             if s is None:
@@ -1007,12 +1123,72 @@ OPS = {
                        st.integers(0, len(VALID) - 1),
                        st.sampled_from(["resolve", "resolve", "none"]),
                        st.sampled_from(["other", "other", "none", "same"])),
+    "recvall": st.tuples(st.just("recvall"), side_, idx_),
+    "closerole": st.tuples(st.just("closerole"), side_, idx_,
+                           st.sampled_from(["conn", "conn", "accepted",
+                                            "client", "listener"])),
+    # a connection lives and dies: named service on one side, a client of the
+    # other side connects, messages, then the two ends reach their end of
+    # life in a generated order (who closes first, who reads the end of the
+    # stream - recv() returning None - before its own close(), a reader
+    # blocked in recv() when the peer closes), optionally the listener goes
+    # too; the cycle is repeated and the released name / addresses are bound
+    # again
+    "session": st.tuples(st.just("session"), side_,
+                         st.integers(0, len(VALID) - 1),
+                         st.sampled_from(["name", "name", "listener"]),
+                         st.lists(st.sampled_from([
+                             "server-first", "server-first", "client-first",
+                             "both", "reader-blocked", "no-read"]),
+                             min_size=1, max_size=3),
+                         st.integers(0, 2), st.booleans(),
+                         st.sampled_from(["name", "addr", "auto", "none"])),
 }
 WEIGHTS = (["x"] * 3 + ["pump"] * 6 + ["sock"] * 2 + ["bind"] * 6
            + ["open"] * 8 + ["openmany"] * 2 + ["listen"] * 3
            + ["connect"] * 6 + ["send"] * 3 + ["recv"] * 3 + ["sendto"] * 5
            + ["recvfrom"] * 3 + ["ldlconnect"] + ["resolve"] * 5
-           + ["close"] * 9 + ["service"] * 5 + ["stale"] * 3)
+           + ["close"] * 9 + ["service"] * 5 + ["stale"] * 3
+           + ["recvall"] * 3 + ["closerole"] * 3 + ["session"] * 3)
+
+
+def session_ops(side, i1, how, orders, nmsg, close_listener, rebind):
+    peer = "b" if side == "a" else "a"
+    n1 = VALID[i1]
+    v1 = NAME_POOL.index(n1)
+    service = [["sock", side, "dlc"], ["bind", side, -1, n1, False],
+               ["listen", side, -1, 2], ["pump", side]]
+    ops = list(service)
+    for order in orders:
+        ops += [["sock", peer, "dlc"],
+                ["connect", peer, -1, how, v1 if how == "name" else -1],
+                ["pump", side], ["pump", side]]
+        ops += [["send", peer, -1], ["send", side, -1]][:nmsg]
+        if order == "reader-blocked":
+            ops += [["recvall", peer, -1]]
+        if order in ("server-first", "reader-blocked", "no-read"):
+            ops += [["closerole", side, -1, "accepted"], ["pump", side],
+                    ["pump", side]]
+            if order == "server-first":
+                ops += [["recvall", peer, -1], ["pump", side]]
+            ops += [["closerole", peer, -1, "client"], ["pump", side]]
+        elif order == "client-first":
+            ops += [["closerole", peer, -1, "client"], ["pump", side],
+                    ["pump", side], ["recvall", side, -1], ["pump", side],
+                    ["closerole", side, -1, "accepted"], ["pump", side]]
+        else:
+            ops += [["closerole", peer, -1, "client"],
+                    ["closerole", side, -1, "accepted"], ["pump", side],
+                    ["pump", side]]
+    if close_listener:
+        ops += [["closerole", side, -1, "listener"], ["pump", side]]
+    if rebind == "name":
+        ops += service
+    elif rebind == "addr":
+        ops += [["open", peer, "ldl", 32, False, 3]]
+    elif rebind == "auto":
+        ops += [["open", peer, "ldl", None, False, 2]]
+    return ops
 
 
 @st.composite
@@ -1042,6 +1218,8 @@ def machine_case(draw, max_steps):
                         ["listen", side, -1, 1]]
             ops += [["connect", peer, 0, "name", v1], ["pump", side],
                     ["pump", side]]
+        elif o[0] == "session":
+            ops += session_ops(*o[1:])
         else:
             ops.append(list(o))
     return {"miu": [draw(st.sampled_from([128, 248, 2175])),
@@ -1503,7 +1681,15 @@ LEGS = [
              "number -1..70 | well-known, valid, malformed name as str or "
              "bytes), bursts of up to 33 binds, listen, connect by listener "
              "address / name / arbitrary address, send/recv on connections, "
-             "sendto/recvfrom, resolve, close; non-trivial = a bind reused an "
+             "blocking recv() loops until the end of the stream (None), "
+             "sendto/recvfrom, resolve, close (any socket / a connected one "
+             "/ by role), connection life cycles (named service, client "
+             "connects, 0-2 messages, the ends die in a generated order: "
+             "server or client closes first, the other reads None before its "
+             "close() or not, or is blocked in recv() meanwhile; listener "
+             "closed or not; name / address / anonymous binds afterwards); "
+             "after every close() that empties a bind the freed address and "
+             "name are probed with a raw bind / bind by name; non-trivial = a bind reused an "
              "address or name freed by an earlier close, or >=10 addresses "
              "of 16..31 or 32..63 were in use at once, or a resolve "
              "returned an address after such a re-bind."),
